@@ -42,6 +42,32 @@ func (g *congr) key(v ssa.Value, depth int) string {
 // helperResult: call is g(…, x, …, y, …) of a repository function where the two arguments of the
 // candidates' type are congruent; when every return of g that is reachable with those two
 // parameters equal yields the same constant for result idx, that constant.
+// helperReturns: the returns of a repository helper called with the two candidates, analysed
+// with its two candidate parameters identified.
+func (g *congr) helperReturns(call *ssa.Call, depth int) ([]retVerdict, bool) {
+	callee := call.Call.StaticCallee()
+	if callee == nil || call.Call.IsInvoke() || callee.Blocks == nil || !strings.Contains(funcName(callee), modPath) || congrDepth >= 2 {
+		return nil, false
+	}
+	var pa, pb *ssa.Parameter
+	for i, a := range call.Call.Args {
+		if i < len(callee.Params) && g.key(a, depth+1) == "E" {
+			if pa == nil {
+				pa = callee.Params[i]
+			} else if pb == nil {
+				pb = callee.Params[i]
+			}
+		}
+	}
+	if pa == nil || pb == nil {
+		return nil, false
+	}
+	congrDepth++
+	rvs, _ := congruentReturns(callee, pa, pb)
+	congrDepth--
+	return rvs, true
+}
+
 func (g *congr) helperResult(call *ssa.Call, idx int, depth int) (string, bool) {
 	callee := call.Call.StaticCallee()
 	if callee == nil || call.Call.IsInvoke() || callee.Blocks == nil || !strings.Contains(funcName(callee), modPath) || congrDepth >= 2 {
@@ -433,7 +459,7 @@ func ruleF8irr(c *Ctx) {
 			c.anchorMissing("F8irr", "asmdb."+fn)
 			continue
 		}
-		rvs, _ := congruentReturns(f, f.Params[0], f.Params[1])
+		rvs, gg := congruentReturns(f, f.Params[0], f.Params[1])
 		nret := 0
 		for _, rv := range rvs {
 			if len(rv.ret.Results) != 1 {
@@ -454,6 +480,46 @@ func ruleF8irr(c *Ctx) {
 			if isLoSwitchResult(v) {
 				c.ok("F8irr", key, pos, "decided by a lo.Switch table: rows with equal flags are checked by rule F8c (preference rows)")
 				continue
+			}
+			// `if less, decided := helper(a, b); decided { return less }`: among the helper's returns
+			// that are reachable with equal candidates and agree with what the path has tested of
+			// its other results, is the returned one always false?
+			if ex, ok := v.(*ssa.Extract); ok {
+				if call, ok := ex.Tuple.(*ssa.Call); ok {
+					if hrs, ok := gg.helperReturns(call, 0); ok {
+						callKey := gg.key(call, 0)
+						allFalse, any := true, false
+						for _, hr := range hrs {
+							if hr.infeasible != "" || ex.Index >= len(hr.keys) {
+								continue
+							}
+							consistent := true
+							for j, kj := range hr.keys {
+								if t, has := rv.facts[fmt.Sprintf("%s#%d", callKey, j)]; has {
+									ev := evalKey(kj, hr.facts, 0)
+									if (ev == 1 && !t) || (ev == 0 && t) {
+										consistent = false
+									}
+								}
+							}
+							if !consistent {
+								continue
+							}
+							any = true
+							if _, isFalse := falseUnder(hr.keys[ex.Index], hr.facts); !isFalse && !isLoSwitchResult(hr.ret.Results[ex.Index]) {
+								allFalse = false
+							}
+						}
+						if any && allFalse {
+							c.ok("F8irr", key, pos, "the helper's result is false on every return that is reachable with equal candidates and consistent with the path")
+							continue
+						}
+						if !any {
+							c.ok("F8irr", key, pos, "not reachable with equal candidates: no return of the helper agrees with the tests made on its results")
+							continue
+						}
+					}
+				}
 			}
 			c.fail("F8irr", key, pos, fmt.Sprintf("%s can return true for two candidates that agree in every criterion (returned value: %s; tests on the way: %s): the choice then depends on the order of the table rows, not on the ranking", fn, valueText(v), factText(rv.facts)))
 		}
